@@ -546,6 +546,19 @@ impl Module for M {
                     emit(format!("text.layout {}", layout_tokens(&font, rng.below(4), rng.below(3), lh, col, pos, &s)));
                 }
                 if pid == "C15" {
+                    // a moved `Text` keeps its layout (alignment, baseline, line height): `translate` changes the
+                    // position only (C07's stream, a slice of it here: seeded change C15-r3-1 rebuilt the moved text
+                    // with the default `TextStyle`); the `C07:` oracle classes do not count in this check, the
+                    // comparison with the model does
+                    for (fi, font) in fonts.iter().enumerate() {
+                        for (si, s) in strings.iter().enumerate().take(8) {
+                            let k = fi * 8 + si;
+                            let lh = LINE_HEIGHTS[k % LINE_HEIGHTS.len()];
+                            let col = COLOURS[(k / 3) % COLOURS.len()];
+                            let d = [(5i32, -3i32), (-40, 17), (0, 9)][k % 3];
+                            emit(format!("text.tr {} {} {}", layout_tokens(font, (k % 4) as u64, ((k / 4) % 3) as u64, lh, col, POSITIONS[k % 2], s), d.0, d.1));
+                        }
+                    }
                     for font in &fonts {
                         for s in &strings {
                             combo += 1;
